@@ -1,10 +1,13 @@
 package zzverif
 
 import (
+	"sync"
+
 	"context"
 	"encoding/json"
 	"fmt"
 	"github.com/gofrs/uuid"
+	"github.com/ory/keto/internal/relationtuple"
 	"net/url"
 	"strings"
 	"testing"
@@ -276,6 +279,55 @@ func famNames(t *testing.T) {
 		r := e.namesBatch(ts)
 		r["batch"] = bi
 		out.write(r)
+	}
+	if si == 0 {
+		// the same mapper serves every request: calls in flight together must map like calls made one after the other
+		const G, N = 16, 250
+		ctx := e.ctx("A")
+		mk := func(g, i int) *ketoapi.RelationTuple {
+			rt := &ketoapi.RelationTuple{Namespace: "n1", Object: fmt.Sprintf("cc-obj-%d-%d", g, i), Relation: "r"}
+			if i%2 == 0 {
+				rt.SubjectID = ptr(fmt.Sprintf("cc-sub-%d-%d", g, i))
+			} else {
+				rt.SubjectSet = &ketoapi.SubjectSet{Namespace: "n2", Object: fmt.Sprintf("cc-set-%d-%d", g, i), Relation: "m"}
+			}
+			return rt
+		}
+		line := func(its []*relationtuple.RelationTuple, err error) string {
+			if err != nil || len(its) != 1 {
+				return fmt.Sprintf("err %v (%d)", err, len(its))
+			}
+			return its[0].String()
+		}
+		want := make([][]string, G)
+		for g := 0; g < G; g++ {
+			for i := 0; i < N; i++ {
+				want[g] = append(want[g], line(e.reg.ReadOnlyMapper().FromTuple(ctx, mk(g, i))))
+			}
+		}
+		var bad []string
+		var mu sync.Mutex
+		var wg sync.WaitGroup
+		for _, mapper := range []*relationtuple.Mapper{e.reg.ReadOnlyMapper(), e.reg.Mapper()} {
+			for g := 0; g < G; g++ {
+				wg.Add(1)
+				go func(g int, mapper *relationtuple.Mapper) {
+					defer wg.Done()
+					for i := 0; i < N; i++ {
+						if got := line(mapper.FromTuple(ctx, mk(g, i))); got != want[g][i] {
+							mu.Lock()
+							if len(bad) < 5 {
+								bad = append(bad, fmt.Sprintf("%s mapped to %.160s next to other calls, to %.160s alone", mk(g, i), got, want[g][i]))
+							}
+							mu.Unlock()
+							return
+						}
+					}
+				}(g, mapper)
+			}
+			wg.Wait()
+		}
+		out.write(map[string]any{"concurrent": 2 * G * N, "bad": bad})
 	}
 	for zi, z := range in.Sized {
 		unit++
